@@ -512,11 +512,19 @@ fn main() {
                 nums.push(format!("{}{}", "0".repeat(z), v));
             }
         }
+        // modifier words and small numbers as partners: a huge component against alpha / beta / rc /
+        // pre / pl / a letter / nothing at the same index
+        for m in ["alpha", "beta", "rc1", "pre2", "pl", "alpha9223372036854775807"] {
+            nums.push(m.to_string());
+        }
+        nums.push("9223372036854775807".to_string());
+        nums.push("9223372036854775806".to_string());
+        nums.push("9223372036854775808".to_string());
         nums.retain(|n| !n.is_empty());
         nums.sort();
         nums.dedup();
         let strip = |n: &str| -> String { let t = n.trim_start_matches('0'); if t.is_empty() { "0".to_string() } else { t.to_string() } };
-        let big = |n: &str| { let n = strip(n); n.len() > 19 || (n.len() == 19 && n.as_str() > "9223372036854775807") };
+        let big = |n: &str| { let d = n.bytes().all(|b| b.is_ascii_digit()); let n = strip(n); d && (n.len() > 19 || (n.len() == 19 && n.as_str() > "9223372036854775807")) };
         let p = Pattern::new("p-*").unwrap_or_else(|e| run.fault(&format!("p-*: {}", e)));
         run.bound(format!("large numbers: {} numbers of 17..26 digits (d x 10^k and neighbours), all pairs in which at most one exceeds i64::MAX, as a version component, both argument orders", nums.len()));
         let idx: Vec<usize> = (0..nums.len()).collect();
@@ -526,9 +534,10 @@ fn main() {
                 if big(x) && big(y) {
                     continue;
                 }
-                let (sx, sy) = (strip(x), strip(y));
-                let numeric = sx.len().cmp(&sy.len()).then_with(|| sx.cmp(&sy));
                 let (a, b) = (format!("p-1.{}", x), format!("p-1.{}", y));
+                // the reference order saturates at i64::MAX; with at most one component beyond it, that
+                // is the numeric order
+                let numeric = dewey::cmp(&dewey::tokenise(version_of(&a), LetterWeight::Rank), &dewey::tokenise(version_of(&b), LetterWeight::Rank));
                 let want = match numeric {
                     Ordering::Greater => a.as_str(),
                     Ordering::Less => b.as_str(),
